@@ -68,3 +68,182 @@ Definition avx2_bss_encode_double (count : nat) (src out : list N) : res (list N
 (** carquet_avx2_byte_stream_split_decode_double has no vector loop *)
 Definition avx2_bss_decode_double (count : nat) (src out : list N) : res (list N) :=
   scalar_loop count (bss_dec_step 8 count src) out.
+
+(* ------------------------------------------------------------------ prefix sums *)
+Local Open Scope N_scope.
+
+(** carquet_avx2_prefix_sum_i32, body of `for (; i + 8 <= count; i += 8)` *)
+Definition avx2_psum32_block (i : nat) (st : list N * N) : res (list N * N) :=
+  let '(buf, sum) := st in
+  let* v := load buf (i * 4)%nat 32 in
+  let v := add_lanes 4 v (mm256_slli_si256 v 4) in
+  let v := add_lanes 4 v (mm256_slli_si256 v 8) in
+  let lo := mm256_extracti128_si256 v 0 in
+  let hi := mm256_extracti128_si256 v 1 in
+  let lane0_sum := le_num (mm_extract_epi32 lo 3) in
+  let hi := add_lanes 4 hi (mm_set1_epi32 lane0_sum) in
+  let v := mm256_inserti128_si256_1 v hi in
+  let v := add_lanes 4 v (mm256_set1_epi32 sum) in
+  let* buf := store buf (i * 4)%nat v in
+  Ok (buf, le_num (mm256_extract_epi32 v 7)).
+
+Definition avx2_prefix_sum_i32 (count : nat) (buf : list N) (initial : N) : res (list N) :=
+  rmap fst (simd_loop 8 count avx2_psum32_block (psum_step 4) (buf, initial mod 2 ^ 32)).
+
+(** carquet_avx2_prefix_sum_i64, body of `for (; i + 4 <= count; i += 4)` *)
+Definition avx2_psum64_block (i : nat) (st : list N * N) : res (list N * N) :=
+  let '(buf, sum) := st in
+  let* v := load buf (i * 8)%nat 32 in
+  let v := add_lanes 8 v (mm256_slli_si256 v 8) in
+  let lo := mm256_extracti128_si256 v 0 in
+  let hi := mm256_extracti128_si256 v 1 in
+  let lane0_last := le_num (firstn 8 (mm_srli_si128 lo 8)) in
+  let hi := add_lanes 8 hi (mm_set1_epi64x lane0_last) in
+  let v := mm256_inserti128_si256_1 v hi in
+  let v := add_lanes 8 v (mm256_set1_epi64x sum) in
+  let* buf := store buf (i * 8)%nat v in
+  Ok (buf, le_num (sub v 24 8)).
+
+Definition avx2_prefix_sum_i64 (count : nat) (buf : list N) (initial : N) : res (list N) :=
+  rmap fst (simd_loop 4 count avx2_psum64_block (psum_step 8) (buf, initial mod 2 ^ 64)).
+
+(* ------------------------------------------------------------------ dictionary gather (hardware gather) *)
+
+(** vpgatherdd / vpgatherdq: every lane loads w bytes at base + SIGNED 32-bit index * w; a negative index is
+    an address below the dictionary, i.e. outside the caller's array *)
+Definition hw_gather (w n : nat) (dict idx : list N) : res (list N) :=
+  iter_blocks n 1 0 (fun k acc =>
+    let ix := le_num (sub idx (k * 4)%nat 4) in
+    if ix <? 2 ^ 31 then let* x := load dict (N.to_nat ix * w)%nat w in Ok (acc ++ x)
+    else Fault OobRead) [].
+
+(** carquet_avx2_gather_i32 / _float (the float version casts and calls the i32 one) *)
+Definition avx2_gather32_block (dict idxs : list N) (i : nat) (out : list N) : res (list N) :=
+  let* idx := load idxs (i * 4)%nat 32 in
+  let* r := hw_gather 4 8 dict idx in
+  store out (i * 4)%nat r.
+Definition avx2_gather_i32 (count : nat) (dict idxs out : list N) : res (list N) :=
+  simd_loop 8 count (avx2_gather32_block dict idxs) (gather_step 4 dict idxs) out.
+Definition avx2_gather_float := avx2_gather_i32.
+
+(** carquet_avx2_gather_i64 / _double *)
+Definition avx2_gather64_block (dict idxs : list N) (i : nat) (out : list N) : res (list N) :=
+  let* idx := load idxs (i * 4)%nat 16 in
+  let* r := hw_gather 8 4 dict idx in
+  store out (i * 8)%nat r.
+Definition avx2_gather_i64 (count : nat) (dict idxs out : list N) : res (list N) :=
+  simd_loop 4 count (avx2_gather64_block dict idxs) (gather_step 8 dict idxs) out.
+Definition avx2_gather_double := avx2_gather_i64.
+
+(* ------------------------------------------------------------------ memset / memcpy *)
+
+(** carquet_avx2_memset: 128-byte unrolled (4 x 32), 32, 16, bytes *)
+Definition avx2_memset (n : nat) (value : N) (out : list N) : res (list N) :=
+  let n128 := (n / 128)%nat in
+  let* out := set_chunks (4 * n128) 32 (set1_epi8 32 value) out 0 in
+  let d := (128 * n128)%nat in
+  let n32 := ((n - d) / 32)%nat in
+  let* out := set_chunks n32 32 (set1_epi8 32 value) out d in
+  let d := (d + 32 * n32)%nat in
+  let n16 := ((n - d) / 16)%nat in
+  let* out := set_chunks n16 16 (set1_epi8 16 value) out d in
+  let d := (d + 16 * n16)%nat in
+  set_chunks (n - d) 1 [value mod 256] out d.
+
+Definition avx2_memcpy (n : nat) (src out : list N) : res (list N) :=
+  let n128 := (n / 128)%nat in
+  let* out := copy_chunks2 n128 128 src out 0 in
+  let d := (128 * n128)%nat in
+  let n32 := ((n - d) / 32)%nat in
+  let* out := copy_chunks2 n32 32 src out d in
+  let d := (d + 32 * n32)%nat in
+  let n16 := ((n - d) / 16)%nat in
+  let* out := copy_chunks2 n16 16 src out d in
+  let d := (d + 16 * n16)%nat in
+  copy_chunks2 (n - d) 1 src out d.
+
+(* ------------------------------------------------------------------ booleans *)
+
+Definition bit_mask32 : list N := bit_mask16 ++ bit_mask16.
+Definition shuf_bytes0123 : list N :=
+  [0; 0; 0; 0; 0; 0; 0; 0; 1; 1; 1; 1; 1; 1; 1; 1; 2; 2; 2; 2; 2; 2; 2; 2; 3; 3; 3; 3; 3; 3; 3; 3].
+
+(** carquet_avx2_unpack_bools, body of `for (; i + 32 <= count; i += 32)` *)
+Definition avx2_unpack_bools_block (inp : list N) (i : nat) (out : list N) : res (list N) :=
+  let* packed := load inp (i / 8)%nat 4 in
+  let bits := mm256_set1_epi32 (le_num packed) in
+  let shuffled := mm256_shuffle_epi8 bits shuf_bytes0123 in
+  let masked := mm_and shuffled bit_mask32 in
+  let result := mm_min_epu8 masked (set1_epi8 32 1) in
+  store out i result.
+Definition avx2_unpack_bools (count : nat) (inp out : list N) : res (list N) :=
+  simd_loop 32 count (avx2_unpack_bools_block inp) (unpack_step inp) out.
+
+(** carquet_avx2_pack_bools, body of `for (; i + 8 <= count; i += 8)` (multiply by bit weights, horizontal add) *)
+Definition avx2_pack_bools_block (inp : list N) (i : nat) (out : list N) : res (list N) :=
+  let* x := load inp i 8 in
+  let bools := mm_loadl_epi64 x in
+  let mult := [1; 2; 4; 8; 16; 32; 64; 128; 0; 0; 0; 0; 0; 0; 0; 0] in
+  let zero := zeros 16 in
+  let words := mm_unpacklo_epi8 bools zero in
+  let mwords := mm_unpacklo_epi8 mult zero in
+  let prod := mullo_lanes 2 words mwords in
+  let prod := add_lanes 2 prod (mm_srli_si128 prod 2) in
+  let prod := add_lanes 2 prod (mm_srli_si128 prod 4) in
+  let prod := add_lanes 2 prod (mm_srli_si128 prod 8) in
+  store1 out (i / 8)%nat (le_num (mm_extract_epi16 prod 0) mod 256).
+Definition avx2_pack_bools (count : nat) (inp out : list N) : res (list N) :=
+  let n8 := (count / 8)%nat in
+  let* out := iter_blocks n8 8 0 (avx2_pack_bools_block inp) out in
+  let i := (8 * n8)%nat in
+  if (i <? count)%nat then pack_tail count inp i out else Ok out.
+
+(* ------------------------------------------------------------------ run length *)
+
+(** carquet_avx2_find_run_length_i32: on a block with a mismatch, a scalar scan of that block *)
+Fixpoint avx2_run_blocks (nb : nat) (vals first : list N) (i count : nat) : res (nat * bool) :=
+  match nb with
+  | O => Ok (i, false)
+  | S nb' =>
+      let* v := load vals (i * 4)%nat 32 in
+      let mask := movemask_epi8 (cmpeq_lanes 4 v (flat_map (fun _ => first) (seq 0 8))) in
+      if mask =? 0xFFFFFFFF then avx2_run_blocks nb' vals first (i + 8) count
+      else
+        (* `for (j = i; j < i + 8 && j < count; j++) if (values[j] != first) return j;` then the loop goes on *)
+        let* r := run_scan (Nat.min 8 (count - i)) vals first i (i + 8) in
+        if (r <? i + 8)%nat then Ok (r, true) else avx2_run_blocks nb' vals first (i + 8) count
+  end.
+Definition avx2_find_run_length (count : nat) (vals : list N) : res nat :=
+  match count with
+  | O => Ok O
+  | _ => let* first := load vals 0 4 in
+         let* r := avx2_run_blocks (count / 8) vals first 0 count in
+         let '(i, done) := r in
+         if done then Ok i else run_scan (count - i) vals first i count
+  end.
+
+(* ------------------------------------------------------------------ fixed-width bit unpackers *)
+
+(** carquet_avx2_bitunpack64_1bit is scalar code: `values[b*8 + i] = (input[b] >> i) & 1` *)
+Definition avx2_bitunpack64_1bit (inp : list N) : res (list N) :=
+  iter_blocks 8 1 0 (fun b acc => let* x := load1 inp b in
+     Ok (acc ++ flat_map (fun i => le_bytes 4 (bit_of x i)) (seq 0 8))) [].
+
+(** carquet_avx2_bitunpack16_4bit: 8 bytes in, 16 x uint32 out *)
+Definition avx2_bitunpack16_4bit (inp : list N) : res (list N) :=
+  let* x := load inp 0 8 in
+  let bytes := mm_loadl_epi64 x in
+  let lo_nibbles := mm_and bytes (set1_epi8 16 0x0F) in
+  let hi_nibbles := mm_and (mm_srli_epi16 bytes 4) (set1_epi8 16 0x0F) in
+  let interleaved := mm_unpacklo_epi8 lo_nibbles hi_nibbles in
+  let second_half := mm_unpackhi_epi64 interleaved interleaved in
+  Ok (mm256_cvtepu8_epi32 interleaved ++ mm256_cvtepu8_epi32 second_half).
+
+(** carquet_avx2_bitunpack16_8bit: 16 bytes in, 16 x uint32 out *)
+Definition avx2_bitunpack16_8bit (inp : list N) : res (list N) :=
+  let* bytes := load inp 0 16 in
+  Ok (mm256_cvtepu8_epi32 bytes ++ mm256_cvtepu8_epi32 (mm_srli_si128 bytes 8)).
+
+(** carquet_avx2_bitunpack8_16bit: 16 bytes in, 8 x uint32 out *)
+Definition avx2_bitunpack8_16bit (inp : list N) : res (list N) :=
+  let* words := load inp 0 16 in Ok (mm256_cvtepu16_epi32 words).
